@@ -190,6 +190,9 @@ class World(object):
         return self.conc.value('arg%s' % token)
 
 
+REAL_ALIAS = {'ia5': 'input'}     # model alias -> alias text used in the real decorators (default: the same text)
+
+
 def build_class(recorder, ctx, world, cls_params, has_extractor, opt_sets, class_level=False, name='Op'):
     """Create a real decorated operation class interpreting ctx.steps."""
     tr = recorder
@@ -240,7 +243,7 @@ def build_class(recorder, ctx, world, cls_params, has_extractor, opt_sets, class
         kw = {}
         if opts is not None:
             if opts['fb']:
-                fb = list(opts['fb'])
+                fb = [REAL_ALIAS.get(a, a) for a in opts['fb']]
                 kw['fallback_aliases'] = fb if getattr(ctx, 'fb_as_list', True) else (lambda *a, **k: list(fb))
             kw['run_intercepted_when_missing'] = bool(opts['runOrig'])
             if opts['subst'] == 'value':
@@ -254,7 +257,9 @@ def build_class(recorder, ctx, world, cls_params, has_extractor, opt_sets, class
         def ia1(self, x, *rest):
             return body_common('ia1', ctx.cur_arg, (x,))
 
-        @tr.intercept_input('ia5', **kw)   # same shape as ia1 under a new name (refactored alias, C02 fallbacks)
+        # same shape as ia1 under a new name (refactored alias, C02 fallbacks); its real name is a piece of the key
+        # scaffolding ("input: <alias> args=..."): keys are built from the alias, never by editing another key's text
+        @tr.intercept_input(REAL_ALIAS['ia5'], **kw)
         def ia5(self, x, *rest):
             return body_common('ia5', ctx.cur_arg, (x,))
 
@@ -496,7 +501,7 @@ def build_class(recorder, ctx, world, cls_params, has_extractor, opt_sets, class
 # ------------------------------------------------------------------------------------------------------------------
 _RE_OUT = re.compile(r'^output: (.+) #(\d+)\.(output|result)$', re.S)
 _RE_IN = re.compile(r'^input: (\S+) args=', re.S)
-IN_ALIAS_REAL = {'ia1': 'ia1', 'ia2.res': 'ia2', 'ia3': 'ia3', 'ia4': 'ia4', 'ia5': 'ia5'}
+IN_ALIAS_REAL = {'ia1': 'ia1', 'ia2.res': 'ia2', 'ia3': 'ia3', 'ia4': 'ia4', 'input': 'ia5'}
 
 
 class Mismatch(dict):
